@@ -10,7 +10,7 @@ Local Open Scope Z_scope.
 
 Record ahandle := mkAH { aid : option nat; aidx : Z }.       (* aid: Some 0 = this array, Some 1 = another array, None = default *)
 Record astate := mkAS { items : list Z; ahs : nat -> ahandle }.
-Inductive aout := AAcc (v : option Z) | ARej.
+Inductive aout := AAcc (v : option Z) | ARej | AExn.     (* AExn: an exception other than invalid_argument (length error / bad_alloc), nothing changed *)
 
 Definition cnt (s : astate) : Z := Z.of_nat (length (items s)).
 Definition aset (s : astate) (i : nat) (h : ahandle) : astate :=
@@ -30,6 +30,7 @@ Inductive aop :=
 | AAddBack (v : Z)
 | ARemoveBack (n : Z)
 | AInsert (i v : Z)
+| AInsertN (i n v : Z)                   (* Insert(index, count, item) *)
 | ARemove (i n : Z)
 | AClear
 | ASetCount (n : Z).
@@ -68,6 +69,14 @@ Definition astep (s : astate) (o : aop) : astate * aout :=
   | AAddBack v => (mkAS (items s ++ [v]) (ahs s), AAcc None)
   | ARemoveBack n => if (0 <=? n) && (n <=? cnt s) then (mkAS (firstn (Z.to_nat (cnt s - n)) (items s)) (ahs s), AAcc None) else (s, ARej)
   | AInsert i v => if (0 <=? i) && (i <=? cnt s) then (mkAS (insert_at (items s) i v) (ahs s), AAcc None) else (s, ARej)
+  | AInsertN i n v =>
+    (* count > maxSize - size: std::bad_array_new_length / std::length_error before anything is touched (fix c5d1be1);
+       a count that cannot be allocated: std::bad_alloc from the growth, before the index check; counts are either tiny or
+       beyond 2^40 in the generated cases *)
+    if (n <? 0) || (2 ^ 40 <=? n) then (s, AExn)
+    else if (0 <=? i) && (i <=? cnt s) then
+      (mkAS (firstn (Z.to_nat i) (items s) ++ repeat v (Z.to_nat n) ++ skipn (Z.to_nat i) (items s)) (ahs s), AAcc None)
+    else (s, ARej)
   | ARemove i n => if (0 <=? i) && (0 <=? n) && (i + n <=? cnt s) then (mkAS (remove_at (items s) i n) (ahs s), AAcc None) else (s, ARej)
   | AClear => (mkAS [] (ahs s), AAcc None)
   | ASetCount n => if 0 <=? n then
@@ -91,8 +100,8 @@ Ltac adm :=
          | |- context [if ?x then _ else _] => destruct x eqn:?
          end.
 
-Lemma arr_rejected_call_is_identity s o s' : astep s o = (s', ARej) -> s' = s.
-Proof. destruct o; cbn [astep]; cbv zeta; adm; intro H; inversion H; reflexivity. Qed.
+Lemma arr_rejected_call_is_identity s o s' : astep s o = (s', ARej) \/ astep s o = (s', AExn) -> s' = s.
+Proof. destruct o; cbn [astep]; cbv zeta; adm; intros [H|H]; inversion H; reflexivity. Qed.
 
 (* what "invalidated" means for an index iterator: for EVERY state, whatever happened before, dereferencing is
    accepted exactly when the iterator belongs to this array and its index is below the current count; it then reads
